@@ -121,6 +121,7 @@ type c15SignReq struct {
 // selection signature shall have.
 type c15Env struct {
 	zeroRoot   map[phase0.ValidatorIndex]bool     // no sync committee root signature for this validator
+	zeroSel    map[phase0.ValidatorIndex]bool     // no selection proofs for this validator
 	selRoots   map[phase0.Root]uint64             // signing root of SyncAggregatorSelectionData -> subcommittee
 	selResidue map[phase0.ValidatorIndex]uint64   // wanted hash(sig)[0:8] % selModulus for selection signatures
 	selModulus uint64                             // 0: selection signatures are not steered
@@ -167,6 +168,10 @@ func (e *c15Env) sign(idx phase0.ValidatorIndex, data, domain []byte) e2types.Si
 	copy(dt[:], domain[0:4])
 	if dt == syncCommittee && e.zeroRoot[idx] {
 		// the signer cluster did not reach its threshold for this account: no signature for it
+		return nil
+	}
+	if dt == selection && e.zeroSel[idx] {
+		// likewise for this account's selection proofs
 		return nil
 	}
 	sig := c15MakeSig(idx, data, domain, 0)
@@ -973,6 +978,7 @@ type c15SelState struct {
 	cfg      c15SelCfg
 	pos      map[phase0.ValidatorIndex][]phase0.CommitteeIndex
 	noAcct   phase0.ValidatorIndex // 0: none
+	noSel    phase0.ValidatorIndex // member for which the signer returns no selection proof (0: none)
 	residues map[phase0.ValidatorIndex]uint64
 	got      map[phase0.ValidatorIndex]map[uint64]phase0.BLSSignature
 	env      *c15Env
@@ -1008,6 +1014,15 @@ func c15SelBody(st *c15SelState, cfg c15SelCfg, nMembers int, noAcct phase0.Vali
 	w.env.registerSelectionRoots(slot, 4*cfg.subnets)
 	w.env.selModulus = modulus
 	w.env.selResidue = st.residues
+	if nMembers > 1 {
+		st.noSel = phase0.ValidatorIndex(mc.Choose(nMembers + 1))
+		if st.noSel == noAcct {
+			st.noSel = 0
+		}
+		if st.noSel != 0 {
+			w.env.zeroSel = map[phase0.ValidatorIndex]bool{st.noSel: true}
+		}
+	}
 	duty := synccommitteemessenger.NewDuty(slot, st.pos)
 	for v, a := range w.accts.all {
 		if v != noAcct {
@@ -1020,8 +1035,8 @@ func c15SelBody(st *c15SelState, cfg c15SelCfg, nMembers int, noAcct phase0.Vali
 		st.got[v] = duty.AggregatorSubcommittees(v)
 	}
 	st.env = w.env
-	st.desc = fmt.Sprintf("SYNC_COMMITTEE_SIZE=%d SYNC_COMMITTEE_SUBNET_COUNT=%d TARGET_AGGREGATORS_PER_SYNC_SUBCOMMITTEE=%d (subcommittee size %d, modulus %d); positions %v; selection hash residues %v; member without account: %d",
-		cfg.size, cfg.subnets, cfg.target, sub, modulus, st.pos, st.residues, noAcct)
+	st.desc = fmt.Sprintf("SYNC_COMMITTEE_SIZE=%d SYNC_COMMITTEE_SUBNET_COUNT=%d TARGET_AGGREGATORS_PER_SYNC_SUBCOMMITTEE=%d (subcommittee size %d, modulus %d); positions %v; selection hash residues %v; member without account: %d; member without selection proofs: %d",
+		cfg.size, cfg.subnets, cfg.target, sub, modulus, st.pos, st.residues, noAcct, st.noSel)
 }
 
 func c15SelCheck(st *c15SelState, r *mc.Result) mc.Verdict {
@@ -1054,6 +1069,12 @@ func c15SelCheck(st *c15SelState, r *mc.Result) mc.Verdict {
 		got := st.got[val]
 		if val == st.noAcct {
 			// nothing can be signed for this member; its presence must not disturb the others (checked below)
+			continue
+		}
+		if val == st.noSel {
+			// the signer returned no selection proof for this member.  What vouch makes of the empty proof is not
+			// judged (with modulus 1 the specification's hash rule selects any byte string, and vouch does make
+			// such a member an aggregator — noted in DESIGN.md); the others are judged on their own proofs below
 			continue
 		}
 		for _, sc := range c15SortedKeys(got) {
